@@ -151,3 +151,48 @@ Theorem C17_data_tables_is_source : forall s d pb mb buf,
     (ms_pat_version s) (ms_pmt_version s) (ms_pat_cc s) (ms_pmt_cc s) pb mb buf (ms_es s) (ms_retransmit s) d.
 Proof. exact write_data_of_generated. Qed.
 Print Assumptions C17_data_tables_is_source.
+
+(* ---- the table payload is the source ----
+   C17_content says the PMT payload is write_psi_data of the current stream list; Gen/MuxGen.v's generatePAT / generatePMT
+   take writePSIData, calcPMTSectionLength and calcDescriptorLength as parameters, instantiated above with g_wpsi (=
+   write_psi_data appended to m.buf), calc_pmt_section_length and calc_descriptor_length. Those three are the functions
+   go/gen (psiwritegen.go) regenerates from the CURRENT source of data_psi.go / data_pmt.go / descriptor.go: the bytes of
+   the items the regenerated writePSIData hands to the BitsWriter are write_psi_data's, its error class and panics are the
+   model's (the count it returns is ignored by generatePAT / generatePMT), and the two length calculators are pointwise
+   the regenerated ones (Proofs/PsiWriteGenAll.v). *)
+Require Import Base.Wr Gen.WriteGen Gen.PsiWriteGen Proofs.WriteGenBase Proofs.PsiWriteGenBase Proofs.PsiWriteGenPsi
+  Proofs.PsiWriteGenAll.
+Theorem C17_psi_writer_is_source :
+  (forall d, match write_psi_data d with
+             | Ok bs => exists l, gwritePSIData d = (l, Some (psi_written d, ENil)) /\
+                                  bytes_of_items (map snd l) = bs /\ nd l = true
+             | Err c => exists l a e, gwritePSIData d = (l, Some (a, e)) /\ werr e = Some c
+             | Panic => exists l, gwritePSIData d = (l, None)
+             end) /\
+  (forall d, gcalcPMTSectionLength d = calc_pmt_section_length d) /\
+  (forall d, gcalcDescriptorLength d = calc_descriptor_length d).
+Proof. exact (conj psi_writer_is_source mux_calc_parameters_are_source). Qed.
+Print Assumptions C17_psi_writer_is_source.
+(* the translated writePSIData runs on a PMT with two descriptors: 30 bytes, write_psi_data's *)
+Example C17_psi_writer_is_source_inhabited :
+  snd (gwritePSIData ex_psi) = Some (30, ENil) /\
+  Ok (bytes_of_items (map snd (fst (gwritePSIData ex_psi)))) = write_psi_data ex_psi.
+Proof. split; [exact (proj1 psi_writer_runs) | exact (proj1 (proj2 psi_writer_runs))]. Qed.
+
+(* the same, at the level of Gen/MuxGen.v: generatePAT / generatePMT with their parameters writePSIData,
+   calcPMTSectionLength and calcDescriptorLength instantiated by the REGENERATED functions (src_wpsi = the regenerated
+   writePSIData through m.bufWriter: bytes of its items appended to m.buf, the count - ignored - their number, the buffer
+   left alone on an error) are, for every state, the generatePAT / generatePMT the theorems above speak about: between the
+   table generation of muxer.go and the bytes of the PAT / PMT payload nothing hand-written is left but
+   calcDescriptorUserDefinedLength / calcDescriptorExtensionLength and the float expressions of dvb.go. *)
+Require Import Proofs.PsiWriteGenMux.
+Theorem C17_tables_are_source :
+  (forall buf d, src_wpsi buf d = g_wpsi buf d) /\
+  (forall ps pm upd ver cc pb buf,
+     Muxer_generatePAT to_pat src_wpsi g_wpkt ps pm upd ver cc pb buf =
+     Muxer_generatePAT to_pat g_wpsi g_wpkt ps pm upd ver cc pb buf) /\
+  (forall ps pmt upd ver cc mb buf,
+     Muxer_generatePMT gcalcDescriptorLength gcalcPMTSectionLength src_wpsi g_wpkt ps pmt upd ver cc mb buf =
+     Muxer_generatePMT calc_descriptor_length calc_pmt_section_length g_wpsi g_wpkt ps pmt upd ver cc mb buf).
+Proof. exact mux_tables_are_source. Qed.
+Print Assumptions C17_tables_are_source.
